@@ -105,6 +105,7 @@ impl<'c, KD: Kind, const N: usize> MapEng<'c, KD, N> {
                     cx.bump(S::clones_ge2);
                 }
                 let calls0 = KD::clone_calls();
+                let counts_cf = if KD::TRACKED { tl::ledger_clone_counts() } else { vec![] };
                 let dm = &mut dst.c.m;
                 let r = Self::lib(cx, || dm.clone_from(&src.c.m));
                 cx.log(|| format!("slot{di}.clone_from(slot{si}) ({nd} <- {ns} entries) -> {}", if r.is_ok() { "ok" } else { "panic" }));
@@ -122,7 +123,15 @@ impl<'c, KD: Kind, const N: usize> MapEng<'c, KD, N> {
                         if !liar {
                             if KD::COUNTS_CLONES {
                                 let d = KD::clone_calls() - calls0;
-                                cx.chk(P15, d <= 2 * ns as u64, "clone-count", || format!("clone_from of {ns} entries made {d} Clone::clone calls"));
+                                cx.chk(P15, d <= KD::CLONES_PER_ENTRY * ns as u64, "clone-count", || format!("clone_from of {ns} entries made {d} Clone::clone calls"));
+                            }
+                            if KD::TRACKED {
+                                // no stored object of the source is cloned more than once
+                                let counts1 = tl::ledger_clone_counts();
+                                for (i, c0) in counts_cf.iter().enumerate() {
+                                    let d = counts1[i] - c0;
+                                    cx.chk(P15, d <= 1, "clone-count", || format!("object #{i} was cloned {d} times during clone_from"));
+                                }
                             }
                             let eq = Self::lib(cx, || dst.c.m == src.c.m);
                             cx.chk(P15, eq == Ok(true), "clone-equal", || format!("after dst.clone_from(&src), dst == src gives {eq:?}"));
@@ -175,9 +184,10 @@ impl<'c, KD: Kind, const N: usize> MapEng<'c, KD, N> {
                         if KD::COUNTS_CLONES && !liar {
                             // payload without drop glue: every stored key and value still goes through Clone::clone, once
                             let d = KD::clone_calls() - calls0;
-                            cx.chk(P15, d == 2 * n as u64, "clone-count", || format!("clone() of {n} entries made {d} Clone::clone calls, expected {}", 2 * n));
+                            let want_calls = KD::CLONES_PER_ENTRY * n as u64;
+                            cx.chk(P15, d == want_calls, "clone-count", || format!("clone() of {n} entries made {d} Clone::clone calls, expected {want_calls}"));
                             let gens1: Vec<(u8, u32, u32)> = tl::quiet(|| ns.c.m.iter().map(|(k, v)| (KD::kraw(k), KD::kgen(k), KD::vgen(v))).collect()).unwrap_or_default();
-                            for (raw, kg, vg) in &gens0 {
+                            for (raw, kg, vg) in gens0.iter().filter(|_| KD::STAMPS_GEN) {
                                 let got = gens1.iter().find(|g| g.0 == *raw).map(|g| (g.1, g.2));
                                 cx.chk(P15, got == Some((kg + 1, vg + 1)), "clone-origin", || format!("entry {raw} of the clone is not a Clone::clone of the original entry (generations {got:?}, original ({kg}, {vg}))"));
                             }
